@@ -22,7 +22,7 @@ func init() {
 		"Not decided: the exact driver error text the constraint test matches (owned by the sqlite driver); delivery under crash; crawl HQ's server semantics; the local producer gives up on a failing Add (not part of the stated property, which names crawl-HQ errors).",
 	}
 	register(&core.Rule{ID: "R-RETRY-UNTIL-DONE", Props: []string{"C15"}, Doc: "hq.producerSender, hq.finisherSender, lq.finisherSender: every return is reachable only through the ctx.Done() arm or through err==nil of the queue call made in that iteration; siblings must agree", Run: ruleRetryUntilDone})
-	register(&core.Rule{ID: "R-BATCH-NO-LOSS", Props: []string{"C15"}, Doc: "the four *Receiver loops: a received item is always appended to the batch; a new batch object is created only on the send arm of the select that hands the copy to batchCh; the batch's slice is never re-sliced in place; dispatchers pass every batch they receive to a sender", Run: ruleBatchNoLoss})
+	register(&core.Rule{ID: "R-BATCH-NO-LOSS", Props: []string{"C15", "C01"}, Doc: "the four *Receiver loops: a received item is always appended to the batch; a new batch object is created only on the send arm of the select that hands the copy to batchCh; the batch's slice is never re-sliced in place; dispatchers pass every batch they receive to a sender", Run: ruleBatchNoLoss})
 	register(&core.Rule{ID: "R-OUTLINK-FIELDS", Props: []string{"C15"}, Doc: "writer/reader agreement: producers set Value←GetURL().Raw, Via←GetSeedVia(), hops←GetHops() (HQ via hopsToPath, LQ as int64); consumers set Raw←Value, seedVia←Via, Hops←pathToHops(Path)/int(Hops), id←ID; hopsToPath/pathToHops use one and the same character; acks carry ID←item.GetID()", Run: ruleOutlinkFields})
 	register(&core.Rule{ID: "R-LQ-UNIQUE", Props: []string{"C15"}, Doc: "the embedded schema declares a UNIQUE index on urls(value) and is executed by Init; (*LQClient).Add skips only the unique-constraint error (continue), returns on any other error before Commit, and commits otherwise", Run: ruleLQUnique})
 }
